@@ -4,10 +4,15 @@ Proof:   coq/theories/Props/C17.v (model Model/TetMesh.v, proofs Proofs/TetMesh*
          checker Checker/TetMesh.v).  The literal tables of the source are re-extracted on
          every run (harness/tables_c17.py -> Gen/TetTables.v) before the Coq build.
 Tie:     (a) the tables; (b) correspondence: the Gallina model is run on binary64 inside
-         coqc on the same sizes and must reproduce the implementation's vertex arrays bit
-         for bit and its element / potential arrays exactly (cube, box, cylinder classes,
-         icosphere topology); (c) per-run certificates: the Coq-proven checker `mesh_cert`
-         (exact integers, vm_compute) on the implementation's own output.
+         coqc on the same arguments and must reproduce the implementation's vertex arrays
+         bit for bit and its element / potential arrays exactly for EVERY factory (cube, box,
+         cylinder classes, sphere, ellipsoid, capsule; the cos/sin values of the rim / cap
+         angles are computed by the harness with the numpy calls of the code and are inputs
+         of the model), and the model of _mesh_processing.py must reproduce volumes and AABBs
+         bit for bit and the centre of mass within 1e-12 on the implementation's own meshes;
+         RigidBody.make_* twins are compared with the factories inside the worker;
+         (c) per-run certificates: the Coq-proven checker `mesh_cert` (exact integers,
+         vm_compute) on the implementation's own output.
 Oracle:  harness/c17_oracle.py — exact rational arithmetic on the returned floats.
 """
 import json
@@ -343,8 +348,9 @@ def cert_expr(cert, res):
 def run(tier, seed, replay=None):
     R = cm.Run(PID, "proof", tier, seed)
     R.cov["rule"] = (
-        "case = one factory call (sphere/ellipsoid orders 0-3 [4 in thorough], cube, box in every equality pattern and on "
-        "both sides of the duplicate-vertex tolerance, cylinder long/short/medium and across the class boundary with "
+        "case = one factory call (sphere/ellipsoid orders 0-3 [4 in thorough], cube, box in every equality pattern, on "
+        "both sides of the duplicate-vertex tolerance and exactly ON it (half_central == relative_tolerance), cylinder "
+        "long/short/medium, across the class boundary and exactly ON both boundaries (|top_z - radius| == tolerance) with "
         "n = 3..64 [701 thorough] rim vertices, capsule n = 3..24 [64]) plus the RigidBody.make_* twin and the mesh helpers; "
         "sizes log-uniform over [1e-2, 1e2] plus the corners of the domain; non-trivial = mesh returned and judged by the "
         "exact oracle; distinct by canonical hash of (factory, arguments)")
@@ -352,7 +358,10 @@ def run(tier, seed, replay=None):
         "theorems are about the Gallina model Model/TetMesh.v over the reals; the tie to /repo is (a) Gen/TetTables.v re-extracted "
         "from the source by a fail-closed ast reader, (b) the bit-exact binary64 run of the model against the implementation, "
         "(c) the Coq-proven checker mesh_cert on the implementation's own output",
-        "cylinder / capsule rim points (cos, sin) are inputs of the model: theorems hold for arbitrary counter-clockwise rim points",
+        "cos / sin of the cylinder rim and capsule cap angles are inputs of the model (computed by the harness with the numpy "
+        "calls of the code): the cylinder theorems hold for arbitrary counter-clockwise rim points, numpy's libm is not modelled",
+        "n_vertices_per_circle (ceil / clip / int of 2*pi*radius/resolution_hint) is computed by the harness with the code's formula, "
+        "whose text is pinned by the table reader",
         "'strictly positive volume' is read as: all tetrahedra of a mesh have the same orientation sign and non-zero volume; the sign "
         "convention differs between factories (sphere/ellipsoid/cube: -, box/cylinder/capsule: +) and tetrahedral_mesh_volumes takes abs",
         "hull volume: scipy ConvexHull facets are an untrusted witness, verified exactly (closed oriented surface, star-shaped and "
